@@ -119,6 +119,18 @@ def case_levels(case):
                     v.append({"sub": "slice", "sig": "slice/%s/%s" % ("ascending" if sel == sorted(sel) else "unsorted", "analytic" if an else "numeric"),
                               "msg": "levels=%r (%s): %s slice %d differs from the single-level solve of level %d by %.2e and from the full-column slice by %.2e (it matches level(s) %r); config %s"
                               % (sel, fname, nm, k, l, e1, e2, held, core.canon(case))})
+    # absolute anchor (the comparisons above compare the library with itself): on the periodic domain (halo=0) the horizontal
+    # mean of the concentration slice for node l is background - mean(source) x trapezoid resistance up to z[l]; in particular
+    # the slice at the surface node carries the background
+    if not fp:
+        Rtr = sl.resistance_trapezoid(z, prof[4])
+        want = 1.5 - q.mean() * Rtr[np.asarray(sel)]
+        g_, c_, f_ = S(list(sel))
+        got = sl.as3d(c_, nl).reshape(nl, -1).mean(axis=1).astype(float)
+        tolm = (1e-10 if pr == "double" else 1e-5) * max(np.abs(want).max(), 1.5)
+        if np.shape(got) != np.shape(want) or not np.all(np.abs(got - want) <= tolm):
+            k_ = int(np.argmax(np.abs(got - want))) if np.shape(got) == np.shape(want) else 0
+            v.append({"sub": "slice-mean", "sig": "slice-mean/%s" % ("surface" if sel[k_] == 0 else "aloft"), "msg": "levels=%r: mean concentration of slice %d (node %d, z=%.4g) is %.10g, background - mean source x resistance = %.10g; config %s" % (sel, k_, sel[k_], z[sel[k_]], got[k_] if np.shape(got) == np.shape(want) else float("nan"), want[k_], core.canon(case))})
     unsorted = sel != sorted(sel)
     return {"v": v[:6], "nt": True, "n": cnt[0], "obs": {"unsorted": unsorted, "forms": [f for f, _ in forms]}}
 
